@@ -24,7 +24,7 @@ pub struct C12;
 
 fn abs_val(ring: &str, v: &Value) -> f64 {
     match ring {
-        "Z" | "F2" | "F3" => v.as_f64().unwrap().abs(),
+        "Z" | "ZB" | "F2" | "F3" | "F7" => v.as_f64().unwrap().abs(),
         "Q" => (v[0].as_f64().unwrap() / v[1].as_f64().unwrap()).abs(),
         "ZH" => v.as_array().unwrap().iter().map(|t| t[1].as_f64().unwrap().abs()).sum(),
         "ZI" => v[0].as_f64().unwrap().abs() + v[1].as_f64().unwrap().abs(),
@@ -37,7 +37,7 @@ fn gen_entry(rng: &mut Rng, ring: &str, unit: bool) -> Value {
         // small numerators and denominators; an i64 overflow that still happens is skipped, not reported
         ("Q", true) => json!(*rng.pick(&[[1, 1], [-1, 1], [2, 1], [-2, 1], [1, 2], [-1, 2], [3, 1], [-1, 3], [3, 2], [2, 3]])),
         ("Q", false) => json!(*rng.pick(&[[1, 1], [-1, 1], [1, 1], [2, 1], [-1, 2], [1, 3], [-3, 1], [5, 1], [2, 3]])),
-        ("Z", false) => json!(*rng.pick(&[1i64, -1, 1, -1, 2, -2, 3])),
+        ("Z", false) | ("ZB", false) => json!(*rng.pick(&[1i64, -1, 1, -1, 2, -2, 3])),
         ("ZH", false) => <yui::poly::Poly<'H', i64> as SimRing>::gen(rng, 0),
         (_, true) => gen_any(rng, ring, 2),
         (_, false) => gen_any(rng, ring, 0),
@@ -46,10 +46,11 @@ fn gen_entry(rng: &mut Rng, ring: &str, unit: bool) -> Value {
 
 fn gen_any(rng: &mut Rng, ring: &str, kind: u32) -> Value {
     match ring {
-        "Z" => <i64 as SimRing>::gen(rng, kind),
+        "Z" | "ZB" => <i64 as SimRing>::gen(rng, kind),
         "Q" => <yui::Ratio<i64> as SimRing>::gen(rng, kind),
         "F2" => <yui::FF<2> as SimRing>::gen(rng, kind),
         "F3" => <yui::FF<3> as SimRing>::gen(rng, kind),
+        "F7" => <yui::FF<7> as SimRing>::gen(rng, kind),
         "ZH" => <yui::poly::Poly<'H', i64> as SimRing>::gen(rng, kind),
         "ZI" => <yui::GaussInt<i64> as SimRing>::gen(rng, kind),
         _ => unreachable!(),
@@ -69,7 +70,7 @@ fn gen_triangular(rng: &mut Rng, ring: &str, n: usize, upper: bool) -> (Value, f
         for i in 0..n {
             let d = gen_entry(rng, ring, true);
             diag_inv[i] = 1.0 / abs_val(ring, &d).max(1e-9);
-            if matches!(ring, "F2" | "F3") { diag_inv[i] = 1.0; }
+            if matches!(ring, "F2" | "F3" | "F7") { diag_inv[i] = 1.0; }
             entries.push(json!([i, i, d]));
             for j in 0..n {
                 let in_tri = if upper { j > i } else { j < i };
@@ -95,7 +96,7 @@ fn gen_triangular(rng: &mut Rng, ring: &str, n: usize, upper: bool) -> (Value, f
                 worst = worst.max(inv[i][c]);
             }
         }
-        let field = matches!(ring, "F2" | "F3");
+        let field = matches!(ring, "F2" | "F3" | "F7");
         if field || worst < 1e9 {
             // explicit stored zeros strictly inside the triangle
             if rng.chance(1, 4) && n >= 2 {
@@ -152,13 +153,13 @@ fn has_stored_zero(a: &Value) -> bool {
 
 fn gen_case_inner(rng: &mut Rng) -> Value {
     let kind = *rng.pick(&["solve", "solve", "solve_left", "inv", "solve_vec", "schur", "schur", "decomp", "decomp"]);
-    let ring = *rng.pick(&["Z", "Z", "Q", "F2", "F3", "ZI", "ZH"]);
+    let ring = *rng.pick(&["Z", "ZB", "Q", "F2", "F3", "F7", "ZI", "ZH"]);
     let nmax: u64 = match ring { "Q" => 9, "ZH" => 8, _ => 20 };
     let upper = rng.chance(1, 2);
     match kind {
         "solve" | "solve_left" | "inv" | "solve_vec" => {
             // one run in sixteen is large (batched / chunked variants of the column loop only differ there)
-            let big = rng.chance(1, 16) && matches!(ring, "Z" | "F2" | "F3");
+            let big = rng.chance(1, 16) && matches!(ring, "Z" | "ZB" | "F2" | "F3" | "F7");
             let n = if big { 65 + rng.below(40) as usize } else { match rng.below(8) { 0 => 0, 1 => 1, _ => 2 + rng.below(nmax - 1) as usize } };
             let (a, _) = gen_triangular(rng, ring, n, upper);
             let k = match kind { "solve_vec" => 1, _ => match rng.below(12) { 0 | 1 => 0, 2 | 3 => 1, 4 => 40 + rng.below(80) as usize, _ => 2 + rng.below(29) as usize } };
@@ -170,7 +171,7 @@ fn gen_case_inner(rng: &mut Rng) -> Value {
             json!({ "kind": kind, "ring": ring, "upper": upper, "a": a, "y": y })
         }
         "schur" => {
-            let big = rng.chance(1, 16) && matches!(ring, "Z" | "F2" | "F3");
+            let big = rng.chance(1, 16) && matches!(ring, "Z" | "ZB" | "F2" | "F3" | "F7");
             let nmax = if big { 90 } else { nmax.min(12) };
             let m = 1 + rng.below(nmax) as usize;
             let n = 1 + rng.below(nmax) as usize;
